@@ -210,6 +210,11 @@ def h_module_reset(sx):
     from behave.model import Step
     which = sx.choice("first_matcher", ["re", "cfparse", "parse"])
     which = which if isinstance(which, str) else which.concretize()
+    # the project-wide default matcher, chosen before the step modules load (as environment.py does with use_step_matcher)
+    default = sx.choice("project_default", ["parse", "re", "cfparse"])
+    default = default if isinstance(default, str) else default.concretize()
+    second = u"second (\\d+) thing" if default == "re" else u"second {x:d} thing"
+    want = [u"5"] if default == "re" else [5]
     tmp = tempfile.mkdtemp(prefix="c11-")
     old = step_registry.registry
     try:
@@ -218,8 +223,13 @@ def h_module_reset(sx):
         with open(os.path.join(d, "a_first.py"), "w") as f:
             f.write("from behave import given, use_step_matcher\nuse_step_matcher(%r)\n@given(u'first thing')\ndef s1(context): pass\n" % which)
         with open(os.path.join(d, "b_second.py"), "w") as f:
-            f.write("from behave import given\n@given(u'second {x:d} thing')\ndef s2(context, x): context.x = x\n")
+            f.write("from behave import given\n@given(r'%s')\ndef s2(context, x): context.x = x\n" % second)
+        with open(os.path.join(d, "c_third.py"), "w") as f:
+            f.write("from behave import when\n@when(r'%s')\ndef s3(context, x): context.x = x\n" % second)
         get_step_matcher_factory().reset()
+        from behave.matchers import use_step_matcher
+        if default != "parse":
+            use_step_matcher(default)
         reg = step_registry.StepRegistry()
         step_registry.registry = reg
         step_registry.setup_step_decorators(None, reg)
@@ -232,9 +242,11 @@ def h_module_reset(sx):
         finally:
             for k, v in saved.items():
                 setattr(behave, k, v)
-        m = reg.find_match(Step("x.feature", 1, "Given", "given", "second 5 thing"))
-        sx.check(m is not None and [a.value for a in m.arguments] == [5], "C11.matcher-switch-does-not-leak-into-next-step-module",
-                 detail={"first_module_matcher": which, "match": repr(m)})
+        for kw, st in (("Given", "given"), ("When", "when")):
+            m = reg.find_match(Step("x.feature", 1, kw, st, "second 5 thing"))
+            sx.check(m is not None and [a.value for a in m.arguments] == want, "C11.matcher-switch-does-not-leak-into-next-step-module",
+                     detail={"first_module_matcher": which, "project_default": default, "step_type": st, "match": repr(m),
+                             "args": None if m is None else [a.value for a in m.arguments]})
         return which
     finally:
         step_registry.registry = old
